@@ -1,15 +1,218 @@
-(* C16 -- proofs about the Queue model (refinement L1 -> L0). *)
-From Coq Require Import List Arith ZArith Bool Lia.
-From Muscle Require Import Cont.QueueModel.
+(* C16 -- the refinement theorems: every operation of the code-shaped Queue model (L1) preserves
+   the representation invariant and refines the ideal sequence (L0), with equal results; lifted
+   to all operation lists; no-stale-items corollaries. *)
+From Coq Require Import List Arith ZArith Bool Lia ZifyBool.
+From Coq Require Import NArith.
+From Muscle Require Import Gen.Consts Cont.QueueModel Cont.QueueLemmas Cont.QueueInv Cont.QueueOps1 Cont.QueueEnsure
+  Cont.QueueOps2 Cont.QueueOps3.
 Import ListNotations.
 Local Open Scope nat_scope.
 
-Lemma upd_length a i v : length (upd a i v) = length a.
+Lemma find_from_bound x l : forall s i, find_from x l s = Some i -> s <= i < s + length l.
 Proof.
-  unfold upd. destruct (i <? length a) eqn:E; [|reflexivity].
-  apply Nat.ltb_lt in E.
-  rewrite app_length. cbn [length]. rewrite firstn_length, skipn_length. lia.
+  induction l as [|y l IH]; intros s i H; cbn [find_from length] in *; [discriminate|].
+  destruct (Z.eqb y x).
+  - injection H as <-. lia.
+  - apply IH in H. lia.
 Qed.
 
-Lemma abs_empty owning jk sq : abs (empty_q) = [] /\ fst (run1 owning jk sq []) = empty_q.
-Proof. split; reflexivity. Qed.
+Lemma abs_snoc ow sq q : inv ow sq q -> 0 < cnt q ->
+  abs q = abs (remove_tail ow q) ++ [getu q (cnt q - 1)].
+Proof.
+  intros I Hc. rewrite (abs_remove_tail ow sq q I Hc).
+  apply (list_ext _ _ 0%Z); autorewrite with nthdb; cbn [length]; [lia|].
+  intros i Hi. autorewrite with nthdb absdb. cbn [length]. dif; fin.
+Qed.
+
+Section Refinement.
+Variables (ow : bool) (jk : Z) (sq : nat).
+
+Local Notation Inv := (inv ow sq).
+Local Notation step1 := (step1 ow jk sq).
+
+(* ------------------------------------------------------------------ one operation *)
+
+Theorem step_refines q o : Inv q ->
+  Inv (fst (step1 q o)) /\
+  abs (fst (step1 q o)) = fst (step0 (abs q) o) /\
+  snd (step1 q o) = snd (step0 (abs q) o).
+Proof.
+  intros I. destruct o; cbn [QueueModel.step1 step0].
+  - (* AddTail *) destruct (add_tail_spec jk sq ow q x I). cbn [fst snd]. auto.
+  - (* AddHead *) destruct (add_head_spec jk sq ow q x I). cbn [fst snd]. auto.
+  - (* RemoveHead *)
+    destruct (cnt q) as [|c] eqn:Ec.
+    + rewrite (abs_cnt0 q Ec). cbn [fst snd]. rewrite (abs_cnt0 q Ec). auto.
+    + rewrite (abs_remove_head ow sq q I) by lia. cbn [fst snd].
+      split; [apply inv_remove_head; [assumption|lia]|]. auto.
+  - (* RemoveTail *)
+    destruct (cnt q) as [|c] eqn:Ec.
+    + rewrite (abs_cnt0 q Ec). cbn [rev fst snd]. rewrite (abs_cnt0 q Ec). auto.
+    + rewrite (abs_snoc ow sq q I) by lia. rewrite rev_app_distr. cbn [rev app fst snd].
+      rewrite rev_involutive, Ec. split; [apply inv_remove_tail; [assumption|lia]|]. auto.
+  - (* RemoveHeadMulti *)
+    pose proof (remove_head_multi_spec sq ow q n I) as S. cbv zeta in S.
+    destruct (remove_head_multi ow q n) as [q' k]. cbn [fst snd] in *.
+    destruct S as (S1&S2&S3&_). rewrite abs_length. subst k. auto.
+  - (* RemoveTailMulti *)
+    pose proof (remove_tail_multi_spec sq ow q n I) as S. cbv zeta in S.
+    destruct (remove_tail_multi ow q n) as [q' k]. cbn [fst snd] in *.
+    destruct S as (S1&S2&S3&_). rewrite abs_length. subst k. auto.
+  - (* RemoveItemAt *)
+    rewrite abs_length. destruct (i <? cnt q) eqn:E; cbn [fst snd]; [|auto].
+    destruct (remove_at_spec sq ow q i I ltac:(lia)) as [J1 J2].
+    rewrite nth_abs by lia. auto.
+  - (* InsertItemAt *)
+    rewrite abs_length. destruct (insert_at_spec jk sq ow q i x I). cbn [fst snd]. auto.
+  - (* ReplaceItemAt *)
+    rewrite abs_length. destruct (i <? cnt q) eqn:E; cbn [fst snd]; [|auto].
+    split; [apply inv_setu; [assumption|lia]|]. split; [apply (abs_setu ow sq); [assumption|lia]|reflexivity].
+  - (* GetItemAt *)
+    rewrite abs_length. cbn [fst snd]. split; [assumption|]. split; [reflexivity|].
+    destruct (i <? cnt q) eqn:E; [|reflexivity]. rewrite nth_abs by lia. reflexivity.
+  - (* Clear *)
+    destruct (clear_shape sq ow q release I) as (J1&J2&_). cbn [fst snd].
+    rewrite (abs_cnt0 _ J2). auto.
+  - (* EnsureSize *)
+    destruct (ensure_size_spec jk sq ow q n setnum extra shrink I) as (J1&J2&_). cbn [fst snd]. auto.
+  - (* Swap *)
+    rewrite abs_length. destruct ((i <? cnt q) && (j <? cnt q)) eqn:E; cbn [fst snd]; [|auto].
+    destruct (swap_items_spec sq ow q i j I ltac:(lia) ltac:(lia)) as (J1&J2&_). auto.
+  - (* ReverseItemOrdering *)
+    destruct (reverse_spec sq ow q from to I). cbn [fst snd]. auto.
+  - (* Normalize *)
+    destruct (normalize_spec sq ow q I). cbn [fst snd]. auto.
+  - (* IndexOf *) cbn [fst snd]. auto.
+  - (* LastIndexOf *) cbn [fst snd]. auto.
+  - (* AddTailMulti *) destruct (add_tail_multi_spec jk sq ow q xs I). cbn [fst snd]. auto.
+  - (* AddHeadMulti *) destruct (add_head_multi_spec jk sq ow q xs I). cbn [fst snd]. auto.
+  - (* InsertItemsAt *)
+    rewrite abs_length. destruct (insert_items_at_spec jk sq ow q i xs I). cbn [fst snd]. auto.
+  - (* CopyFrom *) destruct (copy_from_spec jk sq ow q xs I). cbn [fst snd]. auto.
+  - (* RemoveFirstInstanceOf *)
+    destruct (find_from x (abs q) 0) as [i|] eqn:E; cbn [fst snd]; [|auto].
+    apply find_from_bound in E. rewrite abs_length in E.
+    destruct (remove_at_spec sq ow q i I ltac:(lia)). auto.
+  - (* RemoveLastInstanceOf *)
+    destruct (find_from x (rev (abs q)) 0) as [k|] eqn:E; cbn [fst snd]; [|auto].
+    apply find_from_bound in E. rewrite rev_length, abs_length in E. rewrite abs_length.
+    destruct (remove_at_spec sq ow q (cnt q - 1 - k) I ltac:(lia)). auto.
+  - (* RemoveAllInstancesOf *)
+    pose proof (remove_all_instances_spec sq ow q x I) as S. cbv zeta in S.
+    destruct (remove_all_instances ow q x) as [q' k]. cbn [fst snd] in *.
+    destruct S as (S1&S2&S3). subst k. auto.
+Qed.
+
+Corollary step_inv q o : Inv q -> Inv (fst (step1 q o)).
+Proof. intros I. apply (step_refines q o I). Qed.
+
+(* a failing operation leaves the whole representation unchanged, not just the abstract value *)
+Theorem step_fail_unchanged q o :
+  snd (step1 q o) = OVal None \/ snd (step1 q o) = OStatus false -> fst (step1 q o) = q.
+Proof.
+  destruct o; cbn [QueueModel.step1]; intros [H|H];
+    repeat match goal with
+    | H : context [match ?c with _ => _ end] |- _ => destruct c eqn:?
+    | |- context [match ?c with _ => _ end] => destruct c eqn:?
+    end; cbn [fst snd] in *; try reflexivity; try discriminate.
+Qed.
+
+(* ------------------------------------------------------------------ all operation lists *)
+
+Lemma run_gen ops : forall q l outs, Inv q -> abs q = l ->
+  let r1 := fold_left (fun '(q, outs) o => let '(q', r) := step1 q o in (q', outs ++ [r])) ops (q, outs) in
+  let r0 := fold_left (fun '(l, outs) o => let '(l', r) := step0 l o in (l', outs ++ [r])) ops (l, outs) in
+  Inv (fst r1) /\ abs (fst r1) = fst r0 /\ snd r1 = snd r0.
+Proof.
+  induction ops as [|o ops IH]; intros q l outs I A; cbn [fold_left].
+  - cbn [fst snd]. auto.
+  - destruct (step_refines q o I) as (J1&J2&J3). rewrite A in J2, J3.
+    destruct (step1 q o) as [q' r]. destruct (step0 l o) as [l' r']. cbn [fst snd] in *. subst r'.
+    apply IH; assumption.
+Qed.
+
+Theorem run_refines ops : 0 < sq ->
+  Inv (fst (run1 ow jk sq ops)) /\
+  abs (fst (run1 ow jk sq ops)) = fst (run0 ops) /\
+  snd (run1 ow jk sq ops) = snd (run0 ops).
+Proof.
+  intros Hsq. unfold run1, run0. apply run_gen; [apply inv_empty; exact Hsq|reflexivity].
+Qed.
+
+Definition reachable (q : q1) : Prop := exists ops, fst (run1 ow jk sq ops) = q.
+
+Theorem reachable_inv q : 0 < sq -> reachable q -> Inv q.
+Proof. intros Hsq [ops <-]. apply (run_refines ops Hsq). Qed.
+
+(* ------------------------------------------------------------------ no stale items *)
+
+(* EnsureSize(n, setNumItems=true) growing the count: the old items are kept, every new item is the
+   default item -- for owning and for trivial item types, whatever the junk value jk *)
+Theorem no_stale_grow q n extra shrink : Inv q -> cnt q <= n ->
+  let q' := ensure_size ow jk sq q n true extra shrink in
+  cnt q' = n /\ (forall i, i < cnt q -> getu q' i = getu q i) /\
+  (forall i, cnt q <= i < n -> getu q' i = dflt).
+Proof.
+  intros I Hn q'. destruct (ensure_size_spec jk sq ow q n true extra shrink I) as (J1&J2&_).
+  fold q' in J1, J2. rewrite l0_resize_grow in J2 by (rewrite abs_length; lia). rewrite abs_length in J2.
+  assert (C : cnt q' = n) by (rewrite <- (abs_length q'), J2; autorewrite with nthdb; lia).
+  split; [exact C|]. split; intros i Hi.
+  - rewrite (getu_abs q' i) by lia. rewrite J2, nth_app', abs_length.
+    replace (i <? cnt q) with true by lia. apply nth_abs. lia.
+  - rewrite (getu_abs q' i) by lia. rewrite J2, nth_app', abs_length, nth_repeat'.
+    replace (i <? cnt q) with false by lia. dif; reflexivity.
+Qed.
+
+(* owning items: in every reachable state every slot outside the live window is the default item *)
+Theorem no_stale_slots q : 0 < sq -> ow = true -> reachable q ->
+  forall s, s < qsize q -> (forall i, i < cnt q -> intern q i <> s) -> nth s (arr q) dflt = dflt.
+Proof.
+  intros Hsq Ho R. apply (inv_outside_window ow sq); [apply reachable_inv; assumption|exact Ho].
+Qed.
+
+End Refinement.
+
+(* what a user observes never depends on the junk an uninitialised slot holds *)
+Theorem junk_independent ow sq jk1 jk2 ops : 0 < sq ->
+  abs (fst (run1 ow jk1 sq ops)) = abs (fst (run1 ow jk2 sq ops)) /\
+  snd (run1 ow jk1 sq ops) = snd (run1 ow jk2 sq ops).
+Proof.
+  intros Hsq. destruct (run_refines ow jk1 sq ops Hsq) as (_&A1&B1).
+  destruct (run_refines ow jk2 sq ops Hsq) as (_&A2&B2). split; congruence.
+Qed.
+
+(* ------------------------------------------------------------------ the code's SMALL_QUEUE_SIZE *)
+
+(* ARRAYITEMS(_smallQueue) as translated from util/Queue.h on every run; the theorems above hold
+   for every positive size, this instance re-checks that the translated constant is positive *)
+Definition small_queue_size : nat := N.to_nat c_SMALL_QUEUE_SIZE.
+
+Lemma small_queue_size_pos : 0 < small_queue_size.
+Proof. vm_compute. lia. Qed.
+
+Theorem run_refines_code_constant ow jk ops :
+  inv ow small_queue_size (fst (run1 ow jk small_queue_size ops)) /\
+  abs (fst (run1 ow jk small_queue_size ops)) = fst (run0 ops) /\
+  snd (run1 ow jk small_queue_size ops) = snd (run0 ops).
+Proof. apply run_refines. exact small_queue_size_pos. Qed.
+
+(* ------------------------------------------------------------------ non-vacuity *)
+
+(* a reachable state with a wrapped-around window (head 1, tail 0) on the inline array ... *)
+Example wrapped_state : exists q,
+  reachable true 0%Z 3 q /\ inv true 3 q /\ st q = SSmall /\ cnt q = 3 /\ head q = 1 /\ tail q = 0.
+Proof.
+  set (ops := [OAddTail 1%Z; OAddTail 2%Z; OAddTail 3%Z; ORemoveHead; OAddTail 4%Z]).
+  exists (fst (run1 true 0%Z 3 ops)).
+  split; [exists ops; reflexivity|]. split; [apply run_refines; lia|]. vm_compute. auto.
+Qed.
+
+(* ... and one on a heap array with junk outside the window (trivial items) *)
+Example heap_state : exists q,
+  inv false 3 q /\ st q = SHeap /\ cnt q = 2 /\ In 77%Z (arr q) /\ ~ In 77%Z (abs q).
+Proof.
+  set (ops := [OEnsure 6 false 0 false; OAddHead 5%Z; OAddHead 6%Z]).
+  exists (fst (run1 false 77%Z 3 ops)).
+  split; [apply run_refines; lia|]. vm_compute. repeat split; auto.
+  intros [H|[H|[]]]; discriminate.
+Qed.
